@@ -67,7 +67,9 @@ def run(case, maxphys):
                 loop(l2)
             else:
                 with BatchMemoryManager(data_loader=l2, max_physical_batch_size=maxphys, optimizer=o) as l3:
-                    loop(l3)
+                    # 'prefetch': the sampler has run ahead of training (what DataLoader workers do): every skip signal of the
+                    # epoch is already queued when the first physical batch is stepped
+                    loop(list(l3) if case.get('prefetch') else l3)
     finally:
         torch.normal = orig
     return {'traj': traj, 'hist': [[float(a), float(b), int(n)] for a, b, n in pe.accountant.history], 'sizes': sizes,
